@@ -260,6 +260,15 @@ async def script(loop, ctx):
                 if spelling:
                     echoed = echoed.replace(spelling.encode(), b"<NAME>")
             if LEAK_RE.search(echoed):
+                # mailboxes that exist *inside* the mail root (some hostile names normalise to harmless
+                # ones, e.g. ' ../../canarydir' is 'canarydir', and CREATE made them) may be listed
+                inside = []
+                for dp, dns, _ in os.walk(root):
+                    for dn in dns:
+                        inside.append(os.path.relpath(os.path.join(dp, dn), root))
+                for nm_in in sorted(inside, key=len, reverse=True):
+                    echoed = echoed.replace(nm_in.encode("latin-1", "replace"), b"<INSIDE>")
+            if LEAK_RE.search(echoed):
                 problems.append(("leak-in-response", f"{LEAK_RE.search(echoed).group()!r} in {echoed[:200]!r}"))
             is_list = pos.startswith("L")
             if esc and not is_list and r.status == "OK":
